@@ -2,6 +2,7 @@ package checks
 
 import (
 	"fmt"
+	"reflect"
 	"strings"
 	"time"
 
@@ -283,7 +284,9 @@ func C16(tier Tier) int {
 		// variant 4: after the changes, instances built by another factory (constructor prices) are
 		// put into the container with Replace and the schedule in force is delivered once more -
 		// every registered function, replaced ones included, is priced by it
-		for variant := 0; variant < 5; variant++ {
+		// variant 5: the schedule in force is delivered to every function object directly
+		// (SetNewGasConfig), and the struct it was delivered in is overwritten by its owner afterwards
+		for variant := 0; variant < 6; variant++ {
 			cfg := ledgerEnv(2)
 			cfg.Schedule = world.PrimeSchedule(0) // construction schedule S1
 			if variant >= 1 && len(seq) == 0 {
@@ -334,6 +337,21 @@ func C16(tier Tier) int {
 			}
 			if variant == 1 {
 				env.ConfirmEpoch(1)
+			}
+			if variant == 5 {
+				if len(seq) != 1 || !scheduleValid(alphabet[seq[0]].s) {
+					continue
+				}
+				gc := toGasCost(inForce)
+				for _, se := range env.Shards {
+					for name := range se.Container.Keys() {
+						if f, gerr := se.Container.Get(name); gerr == nil {
+							f.SetNewGasConfig(gc)
+						}
+					}
+				}
+				*gc = *toGasCost(world.MakeSchedule(func(i int) uint64 { return 900001 + uint64(i) }))
+				label = "(delivered directly, the delivered struct overwritten afterwards) " + label
 			}
 			if variant == 4 {
 				if inForceName == "S1(construction)" {
@@ -437,4 +455,22 @@ func C16(tier Tier) int {
 		"explanation": fmt.Sprintf("all sequences of <= %d schedule changes over an alphabet of 6 accepted schedules (three with pairwise distinct primes, distinct across schedules, and three that differ from those in one section only) and %d rejected ones, applied through the real factory.GasScheduleChange; the model state is the schedule in force; after every sequence each priced function is executed on the real code and its charge compared with the closed form under the schedule in force", maxLen, rejected),
 	}
 	return Finish(o)
+}
+
+// toGasCost fills the library's gas-cost struct from a schedule (field names are the map keys).
+func toGasCost(s world.Schedule) *vmcommon.GasCost {
+	gc := &vmcommon.GasCost{}
+	bi := reflect.ValueOf(&gc.BuiltInCost).Elem()
+	for k, v := range s[vmcommon.BuiltInCostString] {
+		if f := bi.FieldByName(k); f.IsValid() && f.CanSet() {
+			f.SetUint(v)
+		}
+	}
+	bo := reflect.ValueOf(&gc.BaseOperationCost).Elem()
+	for k, v := range s[vmcommon.BaseOperationCostString] {
+		if f := bo.FieldByName(k); f.IsValid() && f.CanSet() {
+			f.SetUint(v)
+		}
+	}
+	return gc
 }
